@@ -32,6 +32,8 @@ package fox
 //@   requires safety-len: len(path) < 4294967295
 //@   requires safety-live: !released[box(c)]
 //@   requires safety-wf: heapWF()
+//@   -- a recording walk starts with an empty parameter list: the saved parameter counts are absolute positions in it
+//@   requires params-empty: !lazy ==> len(*c.params) == 0
 //@   modifies C[Params], C[skippedNodes], E[Param], E[skippedNode], released
 //@   assume-at after (*Pool).Get#1 : pool-discipline: dyntypeIs(call_result, *cTx) && ctxOf(call_result) != nil && ctxOf(call_result) != c && ctxOf(call_result).params != nil && ctxOf(call_result).tsrParams != nil && ctxOf(call_result).skipNds != nil && ctxOf(call_result).params != ctxOf(call_result).tsrParams && ctxOf(call_result).params != c.params && ctxOf(call_result).params != c.tsrParams && ctxOf(call_result).tsrParams != c.params && ctxOf(call_result).tsrParams != c.tsrParams && ctxOf(call_result).skipNds != c.skipNds && !released[box(ctxOf(call_result))]
 //@   -- assumed: a walk on another pooled context leaves this context's buffers alone (the pool never hands out a context in use)
@@ -49,6 +51,7 @@ package fox
 //@   loop 1: invariant no-wrap: paramCnt <= charsMatched
 //@   loop 1: invariant live: !released[box(c)]
 //@   loop 1: invariant lazy-len: lazy ==> len(*c.params) <= old(len(*c.params))
+//@   loop 1: invariant params-count: !lazy ==> len(*c.params) == paramCnt
 //@   loop 2: invariant current != nil && 0 <= charsMatched && charsMatched <= len(path) && 0 <= i && i == charsMatchedInNodeFound && i <= len(current.key) && paramCnt <= len(*c.params)
 //@   loop 2: invariant pkc: paramKeyCnt == cnt(current.key, charsMatchedInNodeFound) && paramKeyCnt <= len(current.params)
 //@   loop 2: invariant stack: stackOK(c, path) && stackMono(c) && stackTop(c, paramCnt)
@@ -56,6 +59,7 @@ package fox
 //@   loop 2: invariant no-wrap: paramCnt <= charsMatched
 //@   loop 2: invariant live: !released[box(c)]
 //@   loop 2: invariant lazy-len: lazy ==> len(*c.params) <= old(len(*c.params))
+//@   loop 2: invariant params-count: !lazy ==> len(*c.params) == paramCnt
 //@   loop 3: invariant current != nil && 0 <= startPath && startPath <= charsMatched && charsMatched <= len(path) && inode != nil && subCtx != nil && subCtx != c && subCtx.params != nil && subCtx.tsrParams != nil && subCtx.skipNds != nil && paramCnt <= len(*c.params)
 //@   loop 3: invariant pkc: paramKeyCnt < len(current.params) && 0 <= charsMatchedInNodeFound && charsMatchedInNodeFound <= len(current.key)
 //@   loop 3: invariant live-sub: !released[box(subCtx)]
@@ -70,6 +74,7 @@ package fox
 //@   loop 4: invariant no-wrap: paramCnt <= charsMatched
 //@   loop 4: invariant live: !released[box(c)]
 //@   loop 4: invariant lazy-len: lazy ==> len(*c.params) <= old(len(*c.params))
+//@   loop 4: invariant params-count: !lazy ==> len(*c.params) == paramCnt
 
 //@ -- ---------------------------------------------------------------- the hostname walk (same discipline, '.'-separated labels, no catch-all)
 //@ pred subCtxOK(subCtx *cTx, c *cTx) = !released[box(subCtx)] && subCtx != nil && subCtx != c && subCtx.params != nil && subCtx.tsrParams != nil && subCtx.skipNds != nil && subCtx.params != subCtx.tsrParams && subCtx.params != c.params && subCtx.params != c.tsrParams && subCtx.tsrParams != c.params && subCtx.tsrParams != c.tsrParams && subCtx.skipNds != c.skipNds
@@ -80,6 +85,7 @@ package fox
 //@   requires safety-len: len(host) < 4294967295 && len(path) < 4294967295
 //@   requires safety-live: !released[box(c)]
 //@   requires safety-wf: heapWF()
+//@   requires params-empty: !lazy ==> len(*c.params) == 0
 //@   modifies C[Params], C[skippedNodes], E[Param], E[skippedNode], released
 //@   assume-at after (*Pool).Get#1 : pool-discipline: dyntypeIs(call_result, *cTx) && subCtxOK(ctxOf(call_result), c)
 //@   -- assumed: a walk on another pooled context leaves this context's buffers alone (the pool never hands out a context in use)
@@ -98,6 +104,7 @@ package fox
 //@   loop 2: invariant no-wrap: paramCnt <= charsMatched
 //@   loop 2: invariant live: !released[box(c)]
 //@   loop 2: invariant lazy-len: lazy ==> len(*c.params) <= old(len(*c.params))
+//@   loop 2: invariant params-count: !lazy ==> len(*c.params) == paramCnt
 //@   loop 3: invariant current != nil && 0 <= charsMatched && charsMatched <= len(host) && 0 <= i#2 && i#2 == charsMatchedInNodeFound && i#2 <= len(current.key) && paramCnt <= len(*c.params) && subCtxOK(subCtx, c)
 //@   loop 3: invariant pkc: paramKeyCnt == cnt(current.key, charsMatchedInNodeFound) && paramKeyCnt <= len(current.params)
 //@   loop 3: invariant stack: stackOK(c, host) && stackMono(c) && stackTop(c, paramCnt)
@@ -105,12 +112,14 @@ package fox
 //@   loop 3: invariant no-wrap: paramCnt <= charsMatched
 //@   loop 3: invariant live: !released[box(c)]
 //@   loop 3: invariant lazy-len: lazy ==> len(*c.params) <= old(len(*c.params))
+//@   loop 3: invariant params-count: !lazy ==> len(*c.params) == paramCnt
 //@   loop 4: invariant current != nil && 0 <= charsMatched && charsMatched < len(host) && 0 <= i#3 && i#3 <= len(current.childKeys) && idx == -1 && paramCnt <= len(*c.params) && 0 <= charsMatchedInNodeFound && charsMatchedInNodeFound <= len(current.key) && subCtxOK(subCtx, c)
 //@   loop 4: invariant stack: stackOK(c, host) && stackMono(c) && stackTop(c, paramCnt)
 //@   loop 4: invariant tsr-n: (tsr ==> n != nil) && (n != nil ==> n.route != nil)
 //@   loop 4: invariant no-wrap: paramCnt <= charsMatched
 //@   loop 4: invariant live: !released[box(c)]
 //@   loop 4: invariant lazy-len: lazy ==> len(*c.params) <= old(len(*c.params))
+//@   loop 4: invariant params-count: !lazy ==> len(*c.params) == paramCnt
 //@   loop 5: invariant current != nil && 0 <= i#4 && i#4 <= len(current.childKeys) && idx == -1 && subCtxOK(subCtx, c) && hasSkpNds == (len(*c.skipNds) > 0)
 //@   loop 5: invariant stack: stackOK(c, host) && stackMono(c)
 //@   loop 5: invariant live: !released[box(c)]
